@@ -101,9 +101,14 @@ def coq_props(pid, timeout=900):
     thms = re.findall(r"^\s*(?:Theorem|Lemma|Corollary|Example)\s+(\w+)", src, re.M)
     n_print = len(re.findall(r"^\s*Print Assumptions", src, re.M))
     closed = r.stdout.count("Closed under the global context")
-    axioms = sorted(set(re.findall(r"^([A-Za-z_][\w.]*)\s*:", r.stdout, re.M)) |
-                    set(re.findall(r"^([A-Za-z_][\w.]*)$", r.stdout, re.M)))
-    axioms = [a for a in axioms if a not in ("Axioms",)]
+    axioms = set(); in_block = False
+    for line in r.stdout.split("\n"):
+        if line.strip() == "Axioms:": in_block = True; continue
+        if line.startswith(("Closed under", "File ", "Warning", "New coercion", "[")): in_block = False; continue
+        if in_block and line and not line[0].isspace():
+            m = re.match(r"^([A-Za-z_][\w.']*)", line)
+            if m: axioms.add(m.group(1))
+    axioms = sorted(axioms)
     notallowed = [a for a in axioms if a not in AXIOM_ALLOW]
     if notallowed:
         raise Broken("axioms outside the allow-list in %s" % t, "\n".join(notallowed) + "\n" + r.stdout[-3000:])
